@@ -49,3 +49,42 @@ Print Assumptions C17_merge.
 Example C17_touching_rejected : forall O, lp_spec 0 O -> lp_total O ->
   nested_init O [[le_x 1]; [ge_x 1]] true = inr ValueErr.
 Proof. exact touching_rejected. Qed.
+
+Require Import PyDict PyLoop CompoundGen CompoundGenBase CompoundGenNested CompoundGenContract.
+(* ---- T1 tie: the classes NestedTermList and IoContractCompound of compundiocontract.py as translated ON THIS RUN
+   (gen/CompoundGen.v, over the abstract term-list primitives; instantiated here with the polyhedral ones, poly_tl O)
+   ARE the functions of model/Compound.v about which the theorems above speak.  A semantic edit of one of these
+   methods breaks the corresponding obligation (proofs/CompoundGenNested.v, CompoundGenContract.v). *)
+Theorem C17_code_init : forall (O : oracle) (alts : list (@tlist (poly_tl O))) (force : bool),
+  @NestedTermList_init (poly_tl O) alts force = nested_init O alts force.
+Proof. exact nested_init_eq. Qed.
+Theorem C17_code_le : forall (O : oracle) (a b : list (@tlist (poly_tl O))), @NestedTermList_le (poly_tl O) a b = nested_le O a b.
+Proof. exact nested_le_eq. Qed.
+Theorem C17_code_eq : forall (O : oracle) (a b : list (@tlist (poly_tl O))), @NestedTermList_eq (poly_tl O) a b = nested_eqb O a b.
+Proof. exact nested_eqb_eq. Qed.
+Theorem C17_code_intersect : forall (O : oracle) (a b : list (@tlist (poly_tl O))) (force : bool),
+  @NestedTermList_intersect (poly_tl O) a b force = nested_intersect O a b force.
+Proof. exact nested_intersect_eq. Qed.
+Theorem C17_code_simplify : forall (O : oracle) (a ctx : list (@tlist (poly_tl O))) (force : bool),
+  @NestedTermList_simplify (poly_tl O) a ctx force = nested_simplify O a ctx force.
+Proof. exact nested_simplify_eq. Qed.
+Theorem C17_code_contains : forall (O : oracle) (a : list (@tlist (poly_tl O))) b,
+  @NestedTermList_contains_behavior (poly_tl O) a b = nested_contains a b.
+Proof. exact nested_contains_eq. Qed.
+Theorem C17_code_vars : forall (O : oracle) (a : list (@tlist (poly_tl O))), @NestedTermList_vars (poly_tl O) a = nested_vars a.
+Proof. exact nested_vars_eq. Qed.
+Theorem C17_code_copy : forall (O : oracle) (a : list (@tlist (poly_tl O))) (force : bool),
+  @NestedTermList_copy (poly_tl O) a force = nested_copy O a force.
+Proof. exact nested_copy_eq. Qed.
+Theorem C17_code_contract_init : forall (O : oracle) (a g : list (@tlist (poly_tl O))) (i o : list var),
+  mmap (@to_compound O) (@IoContractCompound_init (poly_tl O) a g i o) = compound_init O a g i o.
+Proof. exact compound_init_eq. Qed.
+Theorem C17_code_contract_eq : forall (O : oracle) (k1 k2 : @kcontract (poly_tl O)),
+  @IoContractCompound_eq (poly_tl O) k1 k2 = compound_eqb O (to_compound k1) (to_compound k2).
+Proof. exact compound_eqb_eq. Qed.
+Theorem C17_code_merge : forall (O : oracle) (k1 k2 : @kcontract (poly_tl O)),
+  mmap (@to_compound O) (@IoContractCompound_merge (poly_tl O) k1 k2) = compound_merge O (to_compound k1) (to_compound k2).
+Proof. exact compound_merge_eq. Qed.
+Print Assumptions C17_code_init. Print Assumptions C17_code_le. Print Assumptions C17_code_eq. Print Assumptions C17_code_intersect.
+Print Assumptions C17_code_simplify. Print Assumptions C17_code_contains. Print Assumptions C17_code_vars. Print Assumptions C17_code_copy.
+Print Assumptions C17_code_contract_init. Print Assumptions C17_code_contract_eq. Print Assumptions C17_code_merge.
